@@ -148,9 +148,9 @@ PROPS["C15"] = {
 
 PROPS["C17"] = {
     "id": "C17", "cmd": "conc", "level": "model_checking",
-    "rule": "deterministic schedule exploration of the real code: scenarios = canonical (initial edges, thread bodies) over <=3 nodes with calls from {connect, try_connect, disconnect, isolate, degree/predicate queries, is_connected/find queries, one full bfs}, all operand choices; every interleaving of lock acquisitions of every scenario is executed (stateless depth-first re-execution with a choice prefix) in two lock-fairness modes (permissive; writer-preferring as in the futex RwLock), each run judged for deadlock (no enabled worker, lock table reported), panic / poisoned lock, and serialisability against the outcomes of all sequential orders of the same calls on the same implementation (final ordered adjacency of all nodes + results of mutating calls). quick: all 2 threads x 1 call scenarios with <=1 initial edge plus 12 hand-picked three-thread / two-against-one scenarios (rings of disconnects and connects, readers between two writers; 5 000-schedule budget each, 40 000 in the thorough tier), 16 'migration' scenarios of the undirected flavour (an edge that exists at every instant moves between a node's two lists while try_connect looks for it), and 8 four-thread scenarios (two traversals - dfs, bfs, pre/postorder, pfs - entering a cycle from opposite ends while one writer per node queues in between) whose schedules are sampled at random from the seed (600 per fairness mode, 20 000 in the thorough tier); thorough: <=2 initial edges, plus strided samples of 2+1 calls and 3 threads. distinct = distinct canonical scenarios with more than one schedule.",
+    "rule": "deterministic schedule exploration of the real code: scenarios = canonical (initial edges, thread bodies) over <=3 nodes with calls from {connect, try_connect, disconnect, isolate, degree/predicate queries, is_connected/find queries, one full bfs}, all operand choices; every interleaving of lock acquisitions of every scenario is executed (stateless depth-first re-execution with a choice prefix) in two lock-fairness modes (permissive; writer-preferring as in the futex RwLock), each run judged for deadlock (no enabled worker, lock table reported), panic / poisoned lock, and serialisability against the outcomes of all sequential orders of the same calls on the same implementation (final ordered adjacency of all nodes + results of mutating calls). quick: all 2 threads x 1 call scenarios with <=1 initial edge plus 12 hand-picked three-thread / two-against-one scenarios (rings of disconnects and connects, readers between two writers; 5 000-schedule budget each, 40 000 in the thorough tier), 16 'migration' scenarios of the undirected flavour (an edge that exists at every instant moves between a node's two lists while try_connect looks for it), and 8 four-thread scenarios (two traversals - dfs, bfs, pre/postorder, pfs - entering a cycle from opposite ends while one writer per node queues in between) whose schedules are sampled at random from the seed (600 per fairness mode, 10 000 in the thorough tier); thorough: <=2 initial edges, plus strided samples of 2+1 calls and 3 threads. distinct = distinct canonical scenarios with more than one schedule.",
     "shards": {"quick": 16, "thorough": 16},
-    "args": {"quick": ["--shapes", "1+1:1", "--budget", "500000", "--targeted", "--sampled-budget", "600"], "thorough": ["--shapes", "1+1:2", "--budget", "500000", "--targeted", "--targeted-budget", "40000", "--sampled-budget", "20000"]},
+    "args": {"quick": ["--shapes", "1+1:1", "--budget", "500000", "--targeted", "--sampled-budget", "600"], "thorough": ["--shapes", "1+1:2", "--budget", "500000", "--targeted", "--targeted-budget", "40000", "--sampled-budget", "10000"]},
     "exhaustive": {"quick": True, "thorough": True},
     "require": {"any": ["enumerations_completed", "scenarios_fully_explored", "scenarios_clean", "schedules", "lock_events.before", "lock_steps_scheduled", "distinct_final_outcomes", "targeted_scenarios", "sampled_scenarios", "random_schedules"]},
     "assumptions": ["lock points are sufficient scheduling points: the only shared mutable state of the sync flavours is inside the per-node RwLock", "fairness of std's RwLock is left open by its contract; both a permissive and a writer-preferring policy are explored", "known findings are matched by exact scenario + anomaly kinds + bad-outcome signature; see known_findings.json"],
@@ -163,8 +163,8 @@ PROPS["C17"]["phases"] = {
                  {"cmd": "stress", "shards": 16, "args": ["--iterations", "6000", "--ops", "400"]}],
 }
 PROPS["C17"]["miri"] = {
-    "quick": {"cmd": "conc_free", "procs": 24, "args": [], "per_proc_args": (lambda i: ["--index", str(i // 2)]), "miriflags": "-Zmiri-many-seeds=0..6", "timeout": 900},
-    "thorough": {"cmd": "conc_free", "procs": 24, "args": [], "per_proc_args": (lambda i: ["--index", str(i // 2)]), "miriflags": "-Zmiri-many-seeds=0..48", "timeout": 3000},
+    "quick": {"cmd": "conc_free", "procs": 26, "args": [], "per_proc_args": (lambda i: ["--index", str(i // 2)]), "miriflags": "-Zmiri-many-seeds=0..6", "timeout": 900},
+    "thorough": {"cmd": "conc_free", "procs": 26, "args": [], "per_proc_args": (lambda i: ["--index", str(i // 2)]), "miriflags": "-Zmiri-many-seeds=0..48", "timeout": 3000},
 }
 PROPS["C17"]["rule"] += " Two further layers, restricted to call pairs without open finding: free-running stress (3 real threads, real futex lock, seeded yields/spins injected at lock points; families owned-pairs and one-writer; oracles: no deadlock by a no-progress + all-threads-asleep criterion, no panic/poison, per-pair conservation of edges, invariant walkers at quiescence) and twelve small scenarios run with real threads under Miri with many seeds (deadlock, data race, UB, serialisability of the outcome)."
 PROPS["C17"]["require"]["any"] += ["stress_iterations", "stress.injected_yields", "stress.acquisitions_that_had_to_block", "miri.free_runs"]
